@@ -488,6 +488,32 @@ func (m *Mast) Insert(ctx context.Context, key, value interface{}) error {
 			return m.savePathForRoot(ctx, options.path)
 		}
 	}
+	// Decide whether this insert makes the tree grow before anything is
+	// modified: the decision needs the layers of the root's keys, which can
+	// fail, and growing can fail too; an insert that grows works on private
+	// copies of the path so that the tree can be restored.
+	growing := false
+	if m.size >= m.growAfterSize {
+		growing = keyLayer > m.height
+		if !growing {
+			growing, err = options.path[0].node.canGrow(m.height, m.keyLayer, m.branchFactor)
+			if err != nil {
+				return fmt.Errorf("canGrow: %w", err)
+			}
+		}
+	}
+	var undo *Mast
+	if growing {
+		saved := *m
+		undo = &saved
+		for j := range options.path {
+			private := options.path[j].node.xcopy()
+			private.dirty = false
+			private.shared = false
+			options.path[j].node = private
+		}
+		node = options.path[len(options.path)-1].node
+	}
 	// Split the child around the new key before touching the node, so that a
 	// failed load or key comparison leaves the tree unchanged.
 	var leftLink interface{}
@@ -531,9 +557,10 @@ func (m *Mast) Insert(ctx context.Context, key, value interface{}) error {
 	if err != nil {
 		return fmt.Errorf("save new root: %w", err)
 	}
-	for m.size >= m.growAfterSize {
+	for growing && m.size >= m.growAfterSize {
 		canGrow, err := options.path[0].node.canGrow(m.height, m.keyLayer, m.branchFactor)
 		if err != nil {
+			*m = *undo
 			return fmt.Errorf("canGrow: %w", err)
 		}
 		if !canGrow {
@@ -545,6 +572,7 @@ func (m *Mast) Insert(ctx context.Context, key, value interface{}) error {
 		}
 		err = m.grow(ctx)
 		if err != nil {
+			*m = *undo
 			return fmt.Errorf("grow: %w", err)
 		}
 	}
